@@ -1,14 +1,23 @@
 /-
   C13 — the Index and file-info APIs describe files exactly; random access is correct.
   Only property theorems and non-vacuity examples live here; helper lemmas are in Lemmas/Index*.lean.
+
+  Models: `Spec` = list-of-records specification (Model/IndexSpec.lean), `Impl` = concrete model of index.c
+  (Model/IndexImpl.lean, trees/groups/cumulative sums), `Impl.abs` the abstraction, `Impl.Inv` the representation
+  invariant, `Hist` the op histories (Lemmas/IndexHist.lean). The tie of `Impl` to the C code is the correspondence
+  run by tools/props/c13.py plus the `gen_*` bridges below.
 -/
 import XzVerif.Model.IndexSpec
 import XzVerif.Model.IndexImpl
 import XzVerif.Model.FileInfo
 import XzVerif.Gen.C13
+import XzVerif.Lemmas.IndexHist
+import XzVerif.Lemmas.IndexLocate
 
 namespace XzVerif.C13
 open XzVerif.Index
+
+/-! ### Bridges to the regenerated `Gen.C13` (constants, sizeof, kernels tabulated by running the real code) -/
 
 /-- constants of index.c / index.h / the API headers as compiled today equal the model's -/
 theorem gen_constants :
@@ -20,6 +29,234 @@ theorem gen_constants :
     ∧ Gen.C13.unpaddedSizeMax = UNPADDED_SIZE_MAX ∧ Gen.C13.backwardSizeMin = BACKWARD_SIZE_MIN
     ∧ Gen.C13.backwardSizeMax = BACKWARD_SIZE_MAX ∧ Gen.C13.streamHeaderSize = STREAM_HEADER_SIZE
     ∧ Gen.C13.checkIdMax = CHECK_ID_MAX ∧ Gen.C13.uint32Max = UINT32_MAX ∧ Gen.C13.sizeMax = U64 - 1
-    ∧ Gen.C13.indexIndicator = 0 := by decide
+    ∧ Gen.C13.indexIndicator = 0 ∧ Gen.C13.headerMagic = headerMagic.map (·.toNat) := by decide
+
+/-- the `lzma_ret` values and iterator modes the model and the driver use -/
+theorem gen_ret_codes :
+    Gen.C13.retOk = Ret.ok.toNat ∧ Gen.C13.retStreamEnd = Ret.streamEnd.toNat ∧ Gen.C13.retMemError = Ret.memError.toNat
+    ∧ Gen.C13.retMemlimitError = Ret.memlimitError.toNat ∧ Gen.C13.retFormatError = Ret.formatError.toNat
+    ∧ Gen.C13.retOptionsError = Ret.optionsError.toNat ∧ Gen.C13.retDataError = Ret.dataError.toNat
+    ∧ Gen.C13.retBufError = Ret.bufError.toNat ∧ Gen.C13.retProgError = Ret.progError.toNat
+    ∧ Gen.C13.retSeekNeeded = Ret.seekNeeded.toNat
+    ∧ Gen.C13.iterModeAny = 0 ∧ Gen.C13.iterModeStream = 1 ∧ Gen.C13.iterModeBlock = 2
+    ∧ Gen.C13.iterModeNonemptyBlock = 3 := by decide
+
+theorem gen_vli_size : Gen.C13.vliSizeSamples.all (fun p => vliSize p.1 == p.2) = true := by decide
+theorem gen_vli_ceil4 : Gen.C13.ceil4Samples.all (fun p => vliCeil4 p.1 == p.2) = true := by decide +kernel
+theorem gen_index_size : Gen.C13.indexSizeSamples.all (fun p =>
+    indexSizeUnpadded p.1 p.2.1 == p.2.2.1 && indexSize p.1 p.2.1 == p.2.2.2.1 && indexPadding p.1 p.2.1 == p.2.2.2.2) = true := by
+  decide +kernel
+theorem gen_index_stream_size : Gen.C13.streamSizeSamples.all (fun p => indexStreamSize p.1 p.2.1 p.2.2.1 == p.2.2.2) = true := by
+  decide +kernel
+theorem gen_index_file_size : Gen.C13.fileSizeSamples.all (fun p =>
+    indexFileSize p.1 p.2.1 p.2.2.1 p.2.2.2.1 p.2.2.2.2.1 == p.2.2.2.2.2) = true := by decide +kernel
+theorem gen_index_memusage : Gen.C13.memusageSamples.all (fun p => memusage p.1 p.2.1 == p.2.2) = true := by decide +kernel
+
+/-- the REAL `index_tree_append` builds trees of the same shape as the model's (height and size of the root's left
+    subtree after n sequential appends, n around every 2^k and 3·2^k up to 1025) -/
+theorem gen_tree_shape : Gen.C13.treeShapeSamples.all (fun p => treeShape p.1 == p) = true := by decide +kernel
+
+/-! ### Arithmetic kernels -/
+
+/-- `vli_ceil4`: the next multiple of four -/
+theorem vli_ceil4_spec (v : Nat) : vliCeil4 v % 4 = 0 ∧ v ≤ vliCeil4 v ∧ vliCeil4 v < v + 4 :=
+  ⟨vliCeil4_mod v, vliCeil4_ge v, vliCeil4_lt v⟩
+
+/-- `lzma_vli_size` is the number of bytes `lzma_vli_encode` produces, between 1 and 9 for every valid VLI -/
+theorem vli_size_spec (v : Nat) (h : v ≤ VLI_MAX) :
+    vliSize v = (vliEncode v).length ∧ 1 ≤ vliSize v ∧ vliSize v ≤ VLI_BYTES_MAX :=
+  ⟨vliSize_eq_length h, vliSize_pos h, vliSize_le_nine h⟩
+
+/-- decoding an encoded VLI gives the value back and consumes exactly its bytes (whatever follows) -/
+theorem vli_roundtrip (v : Nat) (h : v ≤ VLI_MAX) (rest : List UInt8) :
+    vliDecodeGo (vliEncode v ++ rest) 0 0 0 = .done v (vliEncode v).length := by
+  simpa using vliDecode_encode h rest 0
+
+/-! ### tree_append_inorder -/
+
+/-- `index_tree_append`: the in-order sequence is the insertion order and the count is the number of nodes
+    (for every count, i.e. whatever rotation the count selects) -/
+theorem tree_append_inorder {α : Type} (t : CTree α) (x : α) :
+    (t.append x).toList = t.toList ++ [x] ∧ (t.append x).count = t.count + 1 :=
+  ⟨CTree.toList_append t x, CTree.count_append t x⟩
+
+/-- full-strength height statement: after n sequential appends the height is at most ⌊log₂ n⌋ + 1 -/
+def tree_append_height_statement : Prop := ∀ n : Nat, balancedUpTo n = true
+
+/-- partial: checked by kernel evaluation for every node count up to 2100 (covers 2^k ± 1 for k ≤ 11); after each append
+    height ≤ ⌊log₂ count⌋ + 1 and size = count. Missing: the induction over the count-driven rotation for all n.
+    (Parent links are not part of the functional model.) -/
+theorem tree_append_height_partial : balancedUpTo 2100 = true := by decide +kernel
+
+/-! ### limits_atomic -/
+
+/-- specification: a failing append/stream_flags/stream_padding/cat leaves the index unchanged -/
+theorem limits_atomic_spec (i s : Index) (u c p : Nat) (f : StreamFlags) :
+    ((Spec.append i u c).1 ≠ .ok → (Spec.append i u c).2 = i)
+    ∧ ((Spec.streamFlags i f).1 ≠ .ok → (Spec.streamFlags i f).2 = i)
+    ∧ ((Spec.streamPadding i p).1 ≠ .ok → (Spec.streamPadding i p).2 = i)
+    ∧ ((Spec.cat i s).1 ≠ .ok → (Spec.cat i s).2 = i) :=
+  ⟨Spec.append_atomic i u c, Spec.streamFlags_atomic i f, Spec.streamPadding_atomic i p, Spec.cat_atomic i s⟩
+
+/-- concrete model: the same, including `lzma_index_stream_padding` which temporarily writes the padding and
+    `lzma_index_append` whose checks all precede the first modification (also on allocation failure) -/
+theorem limits_atomic (i s : Impl.Index) (hi : Impl.Inv i) (hs : Impl.Inv s) (u c p : Nat) (f : StreamFlags) :
+    ((Impl.append i u c).1 ≠ .ok → (Impl.append i u c).2 = i)
+    ∧ ((Impl.streamFlags i f).1 ≠ .ok → (Impl.streamFlags i f).2 = i)
+    ∧ ((Impl.streamPadding i p).1 ≠ .ok → (Impl.streamPadding i p).2 = i)
+    ∧ ((Impl.cat i s).1 ≠ .ok → (Impl.cat i s).2 = i) :=
+  ⟨Impl.append_atomic i u c, Impl.streamFlags_atomic i f, (Impl.streamPadding_refines hi p).2.2.2,
+   (Impl.cat_refines hi hs).2.2.2⟩
+
+/-- successful operations never leave the format limits (`Spec.Valid`: Unpadded Sizes in [5, UNPADDED_SIZE_MAX],
+    sizes ≤ LZMA_VLI_MAX, file size and total uncompressed size ≤ LZMA_VLI_MAX, padding multiple of 4, valid flags):
+    an operation that would exceed one of them must therefore have failed -/
+theorem limits_preserved (i s : Index) (hi : Spec.Valid i) (hs : Spec.Valid s) (u c p : Nat) (f : StreamFlags) :
+    Spec.Valid Spec.init
+    ∧ Spec.Valid (Spec.append i u c).2 ∧ Spec.Valid (Spec.streamFlags i f).2
+    ∧ Spec.Valid (Spec.streamPadding i p).2 ∧ Spec.Valid (Spec.cat i s).2 := by
+  refine ⟨Spec.valid_init, ?_, ?_, ?_, ?_⟩
+  · by_cases h : (Spec.append i u c).1 = .ok
+    · exact Spec.append_valid hi (Prod.ext h rfl)
+    · rw [Spec.append_atomic i u c h]; exact hi
+  · by_cases h : (Spec.streamFlags i f).1 = .ok
+    · exact Spec.streamFlags_valid hi (Prod.ext h rfl)
+    · rw [Spec.streamFlags_atomic i f h]; exact hi
+  · by_cases h : (Spec.streamPadding i p).1 = .ok
+    · exact Spec.streamPadding_valid hi (Prod.ext h rfl)
+    · rw [Spec.streamPadding_atomic i p h]; exact hi
+  · by_cases h : (Spec.cat i s).1 = .ok
+    · exact Spec.cat_valid hi hs (Prod.ext h rfl)
+    · rw [Spec.cat_atomic i s h]; exact hi
+
+/-- the size of the combined Index field stays within Backward Size after a successful append -/
+theorem append_respects_backward_size (i : Index) (u c : Nat) (h : (Spec.append i u c).1 = .ok) :
+    indexSize (Spec.blockCount i + 1) (Spec.listSizeAll i + (vliSize u + vliSize c)) ≤ BACKWARD_SIZE_MAX := by
+  have hc := (Spec.append_ok_eq (Prod.ext h rfl : Spec.append i u c = (.ok, (Spec.append i u c).2))).1
+  unfold Spec.appendCheck at hc
+  split at hc; · simp at hc
+  split at hc; · simp at hc
+  dsimp only at hc
+  split at hc; · simp at hc
+  split at hc; · simp at hc
+  split at hc; · simp at hc
+  split at hc
+  · simp at hc
+  · next h5 => omega
+
+/-! ### index_refines_spec -/
+
+/-- For every history of init/append/stream_flags/stream_padding/cat/dup (sizes over all naturals, failing calls
+    included; `h.impl = some i` excludes only histories in which an allocation failed): the abstraction of the concrete
+    state is the specification state, the representation invariant holds, and every scalar getter agrees. -/
+theorem index_refines_spec (h : Hist) (i : Impl.Index) (hi : h.impl = some i) :
+    Impl.abs i = h.spec ∧ Impl.Inv i
+    ∧ Impl.streamCount i = Spec.streamCount h.spec ∧ Impl.blockCount i = Spec.blockCount h.spec
+    ∧ Impl.indexSizeAll i = Spec.indexSizeAll h.spec ∧ Impl.streamSize i = Spec.streamSize h.spec
+    ∧ i.totalSize = Spec.totalSize h.spec ∧ Impl.fileSize i = Spec.fileSize h.spec
+    ∧ i.uncompressedSize = Spec.uncompressedSize h.spec ∧ Impl.checks i = Spec.checks h.spec
+    ∧ Impl.memused i = Spec.memused h.spec ∧ Impl.paddingSize i = Spec.paddingSize h.spec := by
+  obtain ⟨ha, hinv⟩ := Hist.refines h i hi
+  have := Impl.getters_refine hinv
+  rw [ha] at this
+  exact ⟨ha, hinv, this⟩
+
+/-- the return code of every operation agrees too (allocation failure of append apart) -/
+theorem index_refines_spec_ret (i s : Impl.Index) (hi : Impl.Inv i) (hs : Impl.Inv s) (u c p : Nat) (f : StreamFlags) :
+    ((Impl.append i u c).1 = .memError ∨ (Impl.append i u c).1 = (Spec.append (Impl.abs i) u c).1)
+    ∧ (Impl.streamFlags i f).1 = (Spec.streamFlags (Impl.abs i) f).1
+    ∧ (Impl.streamPadding i p).1 = (Spec.streamPadding (Impl.abs i) p).1
+    ∧ (Impl.cat i s).1 = (Spec.cat (Impl.abs i) (Impl.abs s)).1 := by
+  refine ⟨?_, (Impl.streamFlags_refines hi f).1, (Impl.streamPadding_refines hi p).1, (Impl.cat_refines hi hs).1⟩
+  rcases Impl.append_refines hi u c with h | h
+  · left; rw [h]
+  · right; exact h.1
+
+/-- full-strength iterator/locate part of the refinement: the concrete iterator (tree positions, ITER_METHOD_*
+    indirection, binary search) shows exactly what the specification iterator shows -/
+def index_refines_spec_iter_statement : Prop :=
+  ∀ (h : Hist) (i : Impl.Index), h.impl = some i →
+    (∀ mode, Impl.iterAll i mode = Spec.iterAll h.spec mode)
+    ∧ (∀ t, (Impl.iterLocate i t).map (·.2) = Spec.locate h.spec t)
+
+/-- partial: on concrete histories (evaluated by the kernel); the general proof needs group bases / number bases in
+    `Impl.Inv` and an induction over `nextLoop`. The model driver additionally checks this equality at run time on
+    every `iter`/`locate`/`inext` op of the correspondence (answer gets " SPECDIFF" otherwise). -/
+theorem index_refines_spec_iter_partial :
+    let h : Hist := .cat (.padding (.flags (.append (.append (.append .init 39 100) 57 0) 81 50) ⟨0, VLI_UNKNOWN, 1⟩) 8)
+                         (.dup (.append (.cat .init (.append .init 9 0)) 5 7))
+    ∃ i, h.impl = some i ∧ (∀ mode ∈ [0, 1, 2, 3, 4], Impl.iterAll i mode = Spec.iterAll h.spec mode)
+      ∧ (∀ t ∈ [0, 99, 100, 149, 150, 156, 157], (Impl.iterLocate i t).map (·.2) = Spec.locate h.spec t) := by
+  decide +kernel
+
+/-! ### locate_unique -/
+
+/-- `lzma_index_iter_locate` on the list of records: for `target < uncompressed size` it returns a Block that contains
+    `target` (so it is non-empty), and no other Block contains `target`; otherwise it fails -/
+theorem locate_unique (i : Index) (t : Nat) :
+    (t < Spec.uncompressedSize i → ∃ p, Spec.locatePos i t = some p ∧ Spec.Contains i p.1 p.2 t
+        ∧ ∀ si bi, Spec.Contains i si bi t → si = p.1 ∧ bi = p.2)
+    ∧ (Spec.uncompressedSize i ≤ t → Spec.locatePos i t = none) := by
+  refine ⟨fun h => ?_, Spec.locatePos_none⟩
+  obtain ⟨p, hp⟩ := Spec.locatePos_some h
+  have hc := Spec.locatePos_contains hp
+  exact ⟨p, hp, hc, fun si bi h' => Spec.contains_unique h' hc⟩
+
+/-! ### iter_visits_once / index_codec_roundtrip (statements; see the partial theorems) -/
+
+/-- full strength: iterating the specification iterator from a rewound state returns exactly `Spec.iterAll` -/
+def iter_visits_once_statement : Prop :=
+  ∀ (i : Index) (mode : Nat), Spec.Valid i →
+    (Spec.iterAll i mode).length =
+      (if mode = 0 then (Spec.positions i true).length else if mode = 1 then i.length
+       else if mode = 2 then Spec.blockCount i else if mode = 3 then ((Spec.allBlocks i).filter (·.uncompressed ≠ 0)).length else 0)
+
+/-- partial: BLOCK mode visits every Block once, in order, with offsets = prefix sums (stated through the encoder's
+    view of the iteration), on a concrete multi-Stream index with empty Streams and empty Blocks, all five mode values -/
+theorem iter_visits_once_partial :
+    let i : Index := [⟨none, 0, [⟨5, 0⟩, ⟨6, 3⟩]⟩, ⟨none, 4, []⟩, ⟨some ⟨0, 8, 4⟩, 0, [⟨7, 0⟩, ⟨9, 9⟩, ⟨5, 0⟩]⟩, ⟨none, 0, []⟩]
+    (Spec.iterAll i 2).filterMap (fun x => x.block.map fun b => (⟨b.unpaddedSize, b.uncompressedSize⟩ : Block)) = Spec.allBlocks i
+    ∧ (Spec.iterAll i 2).filterMap (fun x => x.block.map (·.numberInFile)) = [1, 2, 3, 4, 5]
+    ∧ (Spec.iterAll i 3).filterMap (fun x => x.block.map (·.uncompressedFileOffset)) = [0, 3]
+    ∧ (Spec.iterAll i 1).map (·.stream.number) = [1, 2, 3, 4]
+    ∧ (Spec.iterAll i 0).length = 7 ∧ Spec.iterAll i 4 = [] := by decide +kernel
+
+/-- full strength: decoding the encoded Index of a valid single-Stream index gives that index back (flags and
+    padding are not part of the Index field), consumes `lzma_index_size` bytes -/
+def index_codec_roundtrip_statement : Prop :=
+  ∀ (bs : List Block), Spec.Valid [⟨none, 0, bs⟩] → memusage 1 bs.length ≤ U64 - 1 →
+    (Spec.decode (U64 - 1) (encodeBlocks bs)).ret = .streamEnd
+    ∧ (Spec.decode (U64 - 1) (encodeBlocks bs)).index = some [⟨none, 0, bs⟩]
+    ∧ (Spec.decode (U64 - 1) (encodeBlocks bs)).used = indexSize bs.length (listSize bs)
+
+/-- partial: the VLI layer of the codec is proved for all values (`vli_roundtrip`, `vli_size_spec`); the Record loop,
+    padding and CRC32 are checked here on concrete Block lists covering every VLI length boundary. -/
+theorem index_codec_roundtrip_partial :
+    ∀ bs ∈ ([[], [⟨5, 0⟩], [⟨127, 128⟩, ⟨16383, 16384⟩, ⟨2097152, 268435455⟩],
+             [⟨34359738368, 4398046511103⟩, ⟨562949953421312, 72057594037927935⟩, ⟨5, 72057594037927936⟩]] : List (List Block)),
+      (Spec.decode (U64 - 1) (encodeBlocks bs)).ret = .streamEnd
+      ∧ (Spec.decode (U64 - 1) (encodeBlocks bs)).index = some [⟨none, 0, bs⟩]
+      ∧ (Spec.decode (U64 - 1) (encodeBlocks bs)).used = indexSize bs.length (listSize bs)
+      ∧ (encodeBlocks bs).length = indexSize bs.length (listSize bs) := by decide +kernel
+
+/-! ### non-vacuity -/
+
+/-- the hypotheses of the refinement theorems are satisfiable: a history with every kind of op evaluates -/
+example : (Hist.cat (.padding (.flags (.append .init 39 100) ⟨0, VLI_UNKNOWN, 1⟩) 8) (.dup (.append .init 5 7))).impl.isSome = true := by
+  decide +kernel
+
+/-- limits do bite: an append that would push the file size over LZMA_VLI_MAX fails and changes nothing -/
+example : Spec.append [⟨none, VLI_MAX - 39, []⟩] 8 0 = (.dataError, [⟨none, VLI_MAX - 39, []⟩]) := by decide +kernel
+example : (Spec.append [⟨none, VLI_MAX - 43, []⟩] 8 0).1 = .ok := by decide +kernel
+
+/-- locate: the Block after an empty Block is found -/
+example : Spec.locatePos [⟨none, 0, [⟨5, 10⟩, ⟨6, 0⟩, ⟨7, 4⟩]⟩] 10 = some (0, 2) := by decide +kernel
+
+/-- Stream Header / Footer of tests/files/good-0-empty.xz decode to Check CRC32 and Backward Size 8 -/
+example : (match headerDecode [0xFD, 0x37, 0x7A, 0x58, 0x5A, 0x00, 0x00, 0x01, 0x69, 0x22, 0xDE, 0x36] with
+           | .ok c => c == 1 | .error _ => false) = true
+    ∧ (match footerDecode [0x90, 0x42, 0x99, 0x0D, 0x01, 0x00, 0x00, 0x00, 0x00, 0x01, 0x59, 0x5A] with
+       | .ok p => p == (1, 8) | .error _ => false) = true := by
+  decide +kernel
 
 end XzVerif.C13
